@@ -219,7 +219,7 @@ def run(ctx):  # noqa: C901, PLR0912, PLR0915
         for c in n.calls():
             if (call_name(c) or '').startswith('send_'):
                 facts = [(t, p) for t, p in g.facts_at(n)]
-                ok = all(p is True and (t.startswith('len(') and t.endswith(') > 0') or t.endswith('has_descriptor_updates'))
+                ok = all(_nonempty_fact(t, p) or (p is True and t.endswith('has_descriptor_updates'))
                          for t, p in facts) and len(facts) == 1
                 ctx.ob('C01.R1', f'{call_name(c)} condition', ok,
                        f'{call_name(c)} is sent whenever there is something of its kind to report' if ok else
@@ -232,6 +232,10 @@ def run(ctx):  # noqa: C901, PLR0912, PLR0915
         ctx.ob('C01.R1', f'{sfi.cls.name}.{name} hands over', ok,
                f'{name} sends a {cls_name} with its own action value and the version group', fi=sfi)
 
+    from . import common
+    common.version_group_setters_total(ctx, 'C01.R1')
+    common.reconstruction_is_uncached(ctx, 'C01.R4')   # a consumer that initialises later gets the current description
+    common.observers_all_notified(ctx, 'C01.R1')   # every commit reaches the report sender
     # ------------------------------------------------------------------ R2
     upd_funcs = {}
     for h in STATE_HANDLERS:
@@ -281,12 +285,12 @@ def run(ctx):  # noqa: C901, PLR0912, PLR0915
         ok = bool(ups) and bool(adds) and bool(reidx) and bool(refs)
         for u, c in ups:
             facts = g.facts_at(u)
-            ok = ok and any('_has_new_state_usable_state_version' in t and p is True for t, p in facts) and \
-                any(t.endswith('is None') and p is False for t, p in facts)
+            ok = ok and any('_has_new_state_usable_state_version' in t and p is True for t, p in facts.both()) and \
+                any(t.endswith('is None') and p is False for t, p in facts.both())
             ok = ok and any(g.dominates(u, r) for r, _ in reidx)
         for a, c in adds:
             facts = g.facts_at(a)
-            ok = ok and any(t.endswith('is None') and p is True for t, p in facts)
+            ok = ok and any(t.endswith('is None') and p is True for t, p in facts.both())
             ok = ok and any(g.dominates(r, a) for r, _ in refs)
         ctx.ob('C01.R2', f'{nm}: update / add', ok,
                f'{nm}: a known state is updated in place under the StateVersion gate and re-indexed, an unknown one gets '
@@ -321,7 +325,13 @@ def run(ctx):  # noqa: C901, PLR0912, PLR0915
                        f'{nm}: notification dict is keyed by {unparse(k)} but the unique key of the table is {want}: two '
                        f'changed objects with the same {getattr(k, "attr", "?")} overwrite each other and the '
                        f'notification no longer names every changed entity', fi=fi, node=n)
-    ctx.floor('C01.R3', n_keys, 6, 'stores into *_by_handle dicts on the consumer')
+    # (one store per function is enough: the add and the update branch may share one store through a local)
+    with_store = {nm for nm, fi in upd_funcs.items() if any(
+        isinstance(n, ast.Assign) and isinstance(n.targets[0], ast.Subscript) and isinstance(n.targets[0].value, ast.Name)
+        and n.targets[0].value.id.endswith('by_handle') for n in walk_no_nested(fi.node))}
+    if with_store != set(upd_funcs):
+        raise AnalysisError(f'C01.R3: no *_by_handle store found in {sorted(set(upd_funcs) - with_store)}')
+    ctx.floor('C01.R3', n_keys, len(upd_funcs), 'stores into *_by_handle dicts on the consumer')
     tm = expand_aliases(repo.func('sdc11073.mdib.providermdib.ProviderMdib._transaction_manager'))
     field_table = {'alert_updates': 'states', 'comp_updates': 'states', 'metric_updates': 'states',
                    'op_updates': 'states', 'rt_updates': 'states', 'ctxt_updates': 'context_states',
@@ -362,8 +372,13 @@ def run(ctx):  # noqa: C901, PLR0912, PLR0915
     in_mdib = all(g.held_withs(n, 'mdib_lock') for n in init_s + done_s + [x for x, _ in getm + clr])
     ctx.ob('C01.R4', 'reload under mdib_lock', in_mdib, 'the whole reload runs inside `with self.mdib_lock`', fi=rl)
     replay = [(n, c) for n, c in g.nodes_where(lambda a: isinstance(a, ast.Call) and unparse(a.func).endswith('.handler'))]
+    # the buffer is emptied: `del buf[:]`, `buf.clear()` or `buf[:] = []`
     dels = [n for n in g.real_nodes() if n.kind == 'stmt' and isinstance(n.stmt, ast.Delete) and
             '_buffered_notifications' in unparse(n.stmt)]
+    dels += [n for n, c in g.nodes_calling('clear') if '_buffered_notifications' in unparse(c.func)]
+    dels += [n for n in g.real_nodes() if n.kind == 'stmt' and isinstance(n.stmt, ast.Assign) and
+             isinstance(n.stmt.targets[0], ast.Subscript) and '_buffered_notifications' in unparse(n.stmt.targets[0].value) and
+             isinstance(n.stmt.value, (ast.List, ast.Tuple)) and not n.stmt.value.elts]
     inside = bool(replay) and bool(dels) and bool(done_s) and \
         all(g.held_withs(n, '_buffered_notifications_lock') for n in [x for x, _ in replay] + dels + done_s)
     ctx.ob('C01.R4', 'replay and switch to initialized under the buffer lock', inside,
@@ -375,8 +390,8 @@ def run(ctx):  # noqa: C901, PLR0912, PLR0915
     ok = bool(replay)
     for n, c in replay:
         facts = g.facts_at(n)
-        ok = ok and any('sequence_id == self.sequence_id' in t and p is True for t, p in facts)
-        ok = ok and any('mdib_version <= self.mdib_version' in t and p is False for t, p in facts)
+        ok = ok and any('sequence_id == self.sequence_id' in t and p is True for t, p in facts.both())
+        ok = ok and any('mdib_version <= self.mdib_version' in t and p is False for t, p in facts.both())
     ctx.ob('C01.R4', 'replay guards', ok,
            'a buffered report is replayed only if its sequence id is the loaded one and its MdibVersion is newer', fi=rl)
     ok = bool(replay) and bool(dels) and bool(done_s) and all(g.dominates(dels[0], d) or g.dominates(d, dels[0]) for d in done_s) \
@@ -397,6 +412,17 @@ def run(ctx):  # noqa: C901, PLR0912, PLR0915
 
 
 # ---------------------------------------------------------------------- self-test seeds
+def _nonempty_fact(text, polarity) -> bool:
+    """(text, polarity) says `the list is not empty`: len(x) > 0 / len(x) >= 1 / len(x) != 0 / x  true, or
+    len(x) == 0 / len(x) < 1 / len(x) <= 0 / not x  false (canonical literals: see cfg.canon_compare)."""
+    t = text.replace(' ', '')
+    import re as _re
+    if polarity is True:
+        return bool(_re.fullmatch(r'len\(.+\)>0|0<len\(.+\)|len\(.+\)>=1|1<=len\(.+\)|len\(.+\)!=0', t)) or \
+            bool(_re.fullmatch(r'[A-Za-z_][\w.]*', t))
+    return bool(_re.fullmatch(r'len\(.+\)==0|0==len\(.+\)|len\(.+\)<1|1>len\(.+\)|len\(.+\)<=0|0>=len\(.+\)', t))
+
+
 from selftest import seed  # noqa: E402
 
 _P = 'src/sdc11073/provider/providerimpl.py'
